@@ -341,9 +341,9 @@ def qualify(module, thm):
 
 def parse_axioms(text):
     res = {}
-    for m in re.finditer(r"'([^']+)' depends on axioms: \[([^\]]*)\]", text, re.S):
+    for m in re.finditer(r"^'([^\n]+?)' depends on axioms: \[([^\]]*)\]", text, re.M):
         res[m.group(1)] = [a.strip() for a in m.group(2).replace("\n", " ").split(",") if a.strip()]
-    for m in re.finditer(r"'([^']+)' does not depend on any axioms", text):
+    for m in re.finditer(r"^'(.+?)' does not depend on any axioms", text, re.M):
         res[m.group(1)] = []
     return res
 
